@@ -6,6 +6,7 @@ import numpy as np
 
 import lib
 import translate_est
+import translate_C10
 from lib import qlit, qlist, qmat, zlist, coq_list, coq_bool
 
 IMPORTS = ("From Coq Require Import List ZArith QArith Bool.\nImport ListNotations.\n"
@@ -86,17 +87,26 @@ def run(chk):
     rng = np.random.default_rng(chk.seed)
     chk.theorems()
     lib.translator_lemma(chk, "estimator_source", translate_est.estimator_facts, translate_est.coq_estimator_facts, "")
+    # second tie of the conditional Poisson model: the branch's statements re-read from the current source = the table the model was written from
+    lib.translator_lemma(chk, "poisson_conditional_branch_source", translate_C10.conditional_branch_facts,
+                         translate_C10.coq_conditional_branch_facts, "")
+    lib.translator_lemma(chk, "poisson_joint_entropy_source", translate_est.poisson_joint_facts, translate_est.coq_poisson_joint_facts, "")
     chk.trusted += ["Coq 8.16.1 kernel + vm_compute",
-                    "the invariance theorems are about the estimator MODELS (Model/KnnCounts.v, Model/Kde.v, Model/PoissonMI.v, and the "
+                    "the invariance theorems are about the estimator MODELS (Model/KnnCounts.v, Model/Kde.v, Model/PoissonMI.v, Model/PoissonCMI.v, and the "
                     "Gaussian / geometric models of C08 / C12); the models are tied to the code by the correspondences of C08, C11, C12, C13 "
-                    "and, here, by re-evaluating the kNN and unconditional-Poisson models on original and transformed inputs",
+                    "and, here, by re-evaluating the kNN and the two Poisson models on original and transformed inputs",
+                    "conditional Poisson model: numpy's aliasing / broadcasting / fill_diagonal / fancy-indexing semantics are reproduced by hand in "
+                    "Model/PoissonCMI.v and tied only by the differential runs (spies on np.corrcoef and poisson_entropy); np.corrcoef and "
+                    "poisson_entropy themselves are oracles there (C13 covers poisson_entropy)",
                     "harness/props/C10.py: the property predicate is evaluated directly on the implementation "
                     "(transform the arguments, call again, compare within 1e-9 relative to max(1,|value|))",
                     "purity is a run-time observation: argument arrays compared bit-for-bit before/after, repeated calls compared exactly"]
     chk.assumptions += ["tie-free continuous samples for every estimator; count samples for the Gaussian and Poisson estimators; "
                         "joint correlation matrix of the sample has condition number <= 1e5 (rounding is amplified by it)",
                         "known finding K2: the CONDITIONAL Poisson estimator is not symmetric under X/Y exchange nor under reordering of "
-                        "Z's columns (matched on estimator, path and transformation only; row order and the unconditional path stay checked)"]
+                        "Z's columns (matched on estimator, path and transformation only; row order, Z-column permutations that keep the first "
+                        "column in place, and the unconditional path stay checked); formal counterparts: C10_poisson_conditional_swap_refuted, "
+                        "C10_poisson_conditional_zorder_refuted, replayed on the implementation on every run"]
     quick = chk.tier == "quick"
 
     # estimator table: name -> (callable(X, Y, Z-or-None, **settings), settings sampler, data kind)
@@ -408,7 +418,7 @@ def run(chk):
         chk.count("poisson_conditional_widths.samples")
         chk.count(f"poisson_conditional_widths.kx{kx}_ky{ky}")
     lib.correspond(chk, "poisson_conditional_model_on_original_and_transformed", IMPORTS, PCMI_TYPE, "check_pcmi_case",
-                   pc_cases, pc_pf, lambda i: pc_desc[i], shard=12, jobs=8, match_of=lambda i: pc_match[i])
+                   pc_cases, pc_pf, lambda i: pc_desc[i], shard=12 if quick else 60, jobs=8, match_of=lambda i: pc_match[i])
     # ---- replay of the witness of C10_poisson_conditional_swap_refuted / _zorder_refuted (K2a / K2b): an 8-row count sample (Hadamard
     #      contrasts) whose correlation matrix is Model/PoissonCMI.v `witness`: [[1,0,1/2,0],[0,1,0,0],[1/2,0,1,0],[0,0,0,1]], k_x = k_y = 1, k_z = 2
     Hd = np.array([[1 if bin(i & j).count("1") % 2 == 0 else -1 for j in range(8)] for i in range(8)])
@@ -451,4 +461,9 @@ def run(chk):
                 "the dispatcher. Transformations: a random joint row permutation, X/Y exchange, a non-identity Z column permutation (k_z>=2); "
                 "the value must be unchanged within 1e-9 relative to max(1,|value|). Purity: arguments bit-identical after the call, repeated "
                 "call exactly equal. The kNN model (exact) and the unconditional Poisson model are re-evaluated inside Coq on original and "
-                "transformed inputs. Distinct = distinct data/settings/route; non-trivial = finite non-zero estimate.")
+                "transformed inputs. Conditional Poisson: every such sample of the main stream plus a stream of count samples with block widths "
+                "1..3 x 1..3 x 1..4 (80% k_x = k_y; unequal widths must raise ValueError), N 12..40, direct and dispatcher routes, is run again under "
+                "spies on np.corrcoef / poisson_entropy for the original, row-permuted, X/Y-exchanged, Z-permuted, Z-permuted-with-first-column-fixed "
+                "(k_z>=3, a property clause) and paired-X/Y-permuted (k>=3) calls; Model/PoissonCMI.v on the original call's matrix must reproduce the "
+                "recorded entropy arguments (multiset, 1e-12) and the value (1e-9); the 8-row witness sample of the refutation theorems is replayed. "
+                "Distinct = distinct data/settings/route; non-trivial = finite non-zero estimate.")
